@@ -12,6 +12,8 @@ use std::path::Path;
 
 pub use serde_json::{json, Value};
 
+pub mod cobworld;
+
 /// Read ndjson values from a file. Blank lines are skipped.
 pub fn read_ndjson(path: &Path) -> Vec<Value> {
     let f = File::open(path).unwrap_or_else(|e| fatal(&format!("open {}: {e}", path.display())));
